@@ -64,7 +64,7 @@ theorem C06_get_processor (U : Universe) (hU : U.WF) (s : St) (t : Ty) :
 
 /-- `remove_component(e, t)` detaches exactly one component — of a type that is `t` or a subclass,
 of exactly type `t` when there is one — or none when nothing matches (state unchanged). -/
-theorem C06_remove_one (U : Universe) (hU : U.WF) (s : St) (e : Ent) (t : Ty) :
+theorem C06_remove_one (U : Universe) [U.NoReenter] (hU : U.WF) (s : St) (e : Ent) (t : Ty) :
     ((∀ st, Sub U st t → Dict.get? (row s e) st = none) →
         removeComponent U s e t = (s, .ok, none)) ∧
     (∀ c, (removeComponent U s e t).2.2 = some c →
